@@ -759,6 +759,32 @@ func genReconn(r *Rng, prop string) *Scenario {
 		lastOp = cut1 + 100
 		maxBackoff = cfg.ReconnMaxUs
 	}
+	if prop == "C18" && r.chance(0.05) {
+		// aimed: the response timeout has fired and the application's OnError is
+		// still running (the task goroutine has not finished with the request)
+		// when the silent connection breaks and the next one is established
+		cfg.CleanSession, cfg.AlwaysResub, cfg.EarlyReply = false, false, false
+		cfg.PingIntervalUs, cfg.KeepAliveSec, cfg.TimeoutUs = 0, 0, 0
+		cfg.ResponseTimeoutUs = 2000
+		cfg.Frag, cfg.JitterUs = nil, nil
+		cfg.DirectQoS0, cfg.OnErrorReenters = false, false
+		cfg.ReconnBaseUs, cfg.ReconnMaxUs = 200, 400
+		cfg.Yields = map[string]int64{"app.onError": r.pickI(3000, 5000)}
+		op := Op{AtUs: 1000, Actor: 1, Kind: "publish", QoS: byte(1 + r.IntN(2)), Topic: "a", Token: "m1"}
+		switch r.IntN(4) {
+		case 0:
+			op = Op{AtUs: 1000, Actor: 1, Kind: "subscribe", Subs: []SubReq{{filters[0], byte(r.IntN(3))}}}
+		case 1:
+			op = Op{AtUs: 1000, Actor: 1, Kind: "unsubscribe", Topics: []string{filters[0]}}
+		}
+		sc.Ops = []Op{{AtUs: 0, Actor: 0, Kind: "connect"}, op}
+		sc.Script = nil
+		// the timeout fires 2000 us after the request is started; the network
+		// ends the silent connection a little later
+		sc.Faults = []Fault{{Kind: "dropB2C", Conn: 1, N: 1}, {Kind: "cutAt", Conn: 1, AtUs: 3000 + r.between(100, 800), Reset: r.chance(0.5)}}
+		lastOp = 1000
+		maxBackoff = cfg.ReconnMaxUs
+	}
 	// horizon: after the last scenario event plus room for the faults to play out
 	h := lastOp + 6*maxBackoff + 20000
 	for _, f := range sc.Faults {
